@@ -30,7 +30,7 @@ def load(prop: str | None = None) -> list[dict]:
         return []
     with open(PATH) as fh:
         items = json.load(fh)["findings"]
-    return [e for e in items if prop is None or e["property"] == prop]
+    return [e for e in items if prop is None or prop == e["property"] or prop in e.get("also", ())]
 
 
 def matcher(prop: str):
